@@ -322,12 +322,19 @@ fn gen_plan(rng: &mut Rng) -> Plan {
             5..=6 => {
                 let f = rng.usize_below(foreign.len());
                 let cnt = 1 + rng.usize_below(3);
-                let ops = (0..cnt)
-                    .map(|j| {
-                        let body = if rng.chance(0.85) { Some(cbor_string(&format!("f{f} {k}.{j}"))) } else { None };
-                        to_wire(&foreign[f].next(body.as_deref(), rng.chance(0.12)))
-                    })
-                    .collect();
+                let mut ops: Vec<WireOp> = Vec::new();
+                if rng.chance(0.3) {
+                    // An operation from the log's future (gap, no prune flag): ingest must reject it
+                    // and it must leave no trace - in particular not in the cursor.
+                    let gap_seq = foreign[f].next_seq + 1 + rng.below(3) as u32;
+                    let body = if rng.bool() { Some(cbor_string(&format!("gap {k}"))) } else { None };
+                    let rogue = crate::common::sign_op(&foreign[f].key, topic, gap_seq, Some(p2panda_core::Hash::digest(b"gap")), body.as_deref(), false);
+                    ops.push(to_wire(&rogue));
+                }
+                for j in 0..cnt {
+                    let body = if rng.chance(0.85) { Some(cbor_string(&format!("f{f} {k}.{j}"))) } else { None };
+                    ops.push(to_wire(&foreign[f].next(body.as_deref(), rng.chance(0.12))));
+                }
                 Step::Import { ops }
             }
             7..=8 => Step::Recv,
@@ -454,6 +461,21 @@ fn run_case(seed: u64, case: u64, crash: Option<usize>, sigkill: bool, hook: Opt
         v.sort();
     }
     res.stored_unacked = expected_hashes.len();
+
+    // The cursor may only point at operations that exist: every way to advance it (application ack,
+    // system-level ack of a body-less operation) follows a completed ingest, and entries only
+    // disappear below a stored prune point.
+    for ((author, log), h) in &cursor {
+        if *log != lid {
+            continue;
+        }
+        let stored_at = rows.iter().any(|r| &r.author == author && &r.log == log && r.seq == *h);
+        let pruned_above = rows.iter().any(|r| &r.author == author && &r.log == log && r.prune && r.seq > *h);
+        if !stored_at && !pruned_above {
+            let below: Vec<u32> = rows.iter().filter(|r| &r.author == author && &r.log == log && r.has_body && r.seq <= *h).map(|r| r.seq).collect();
+            res.violations.push(("C15:cursor-ahead-of-stored-log".into(), format!("persisted cursor of ({}.., topic log) is at seq {h} but no such operation is stored (and no prune point above it); stored operations with a body at or below it that will never be replayed: {below:?}", &author[..8]), witness(json!({"journal": journal, "stored": rows.iter().filter(|r| r.log == lid).map(|r| format!("{}..#{}{}", &r.author[..8], r.seq, if r.has_body {"+body"} else {""})).collect::<Vec<_>>()}))));
+        }
+    }
 
     // Journal cross-checks (durability of returned calls).
     let mut pruned_later = false;
